@@ -35,7 +35,7 @@ def kind_ok(mkind, pkind):
     if mkind.startswith("prim:"):
         return PRIM_EXPORT.get(mkind[5:]) == pkind
     if mkind.startswith("ext:"):
-        return pkind == "verif/" + mkind[4:]
+        return pkind == mkind[4:]
     return False
 
 
@@ -79,7 +79,9 @@ def compare(model, pkgflat, design, top_mid):
             first = diffs
         if n >= MAX_ALTERNATIVES:
             return None, ["too many naming alternatives; inconclusive"] + first
-    return False, first or ["no candidate naming"]
+    if first is None:
+        return None, ["no consistent naming found within the enumeration budget; inconclusive"]
+    return False, first
 
 
 def _children(paths):
@@ -156,6 +158,13 @@ def _alternatives(model, pkgflat):
         if a[0] == "bun":
             bleaves.setdefault((a[1], a[2], a[3]), 0)
             bleaves[(a[1], a[2], a[3])] = max(bleaves[(a[1], a[2], a[3])], a[4] + 1)
+    def mid_of(mpath):
+        if not mpath:
+            return "top"
+        node = mnodes.get(mpath)
+        return node[1] if isinstance(node, tuple) else None
+
+    bun_paths = {}  # ambiguity is a property of the module definition, not of each instance path
     if bleaves:
         psignames = {}
         pwidth = {}
@@ -174,14 +183,21 @@ def _alternatives(model, pkgflat):
             if len(cands) == 1:
                 bun_fixed[(mpath, bname, lp)] = cands[0]
             else:
-                bun_keys.append((mpath, bname, lp))
-                bun_opts.append(cands)
+                dkey = (mid_of(mpath), bname, lp)
+                bun_paths.setdefault(dkey, []).append(mpath)
+                if dkey not in bun_keys:
+                    bun_keys.append(dkey)
+                    bun_opts.append(cands)
 
     if not choice_keys and not bun_keys:
         yield {"seg": fixed, "bun": bun_fixed}
         return
     # Ambiguity: enumerate alternatives (instance choices first)
+    tried = 0
     for combo in itertools.product(*(choice_opts + bun_opts)):
+        tried += 1
+        if tried > 5000:
+            return
         segmap = dict(fixed)
         ok = True
         for key, val in zip(choice_keys, combo[: len(choice_keys)]):
@@ -197,7 +213,8 @@ def _alternatives(model, pkgflat):
             continue
         bmap = dict(bun_fixed)
         for key, val in zip(bun_keys, combo[len(choice_keys) :]):
-            bmap[key] = val
+            for mp in bun_paths[key]:
+                bmap[(mp, key[1], key[2])] = val
         if len(set((k[0], v) for k, v in bmap.items())) != len(bmap):
             continue
         yield {"seg": segmap, "bun": bmap}
